@@ -1,5 +1,6 @@
 import TpmProofs.Warn
 import TpmProofs.MsgNoCrash
+import TpmProofs.PosInp
 /-!
 # Warn mode never fails with an internal error (C08: "decoding never aborts on malformed data")
 
@@ -891,12 +892,12 @@ theorem setListed_one {id : Nat} {mx : Option Nat} {s : St} (h : Sole id mx s.sc
     exact ⟨_, rfl, rfl, ⟨{ c with path := cpath, max := some n }, by simp [emitW, emit, hc, h1], h1, rfl⟩⟩
 
 /-- the values gathered so far hold a session area only as the session loop returned it -/
-def AV (t : Ty) (vals : List (String × Val)) : Prop := ∀ area, lookupVal vals "authorizationArea" = some area → AreaVal t area
+def AuthOk (t : Ty) (vals : List (String × Val)) : Prop := ∀ area, lookupVal vals "authorizationArea" = some area → AreaVal t area
 
-theorem AV.nil (t : Ty) : AV t [] := by intro area h; simp [lookupVal] at h
+theorem AuthOk.nil (t : Ty) : AuthOk t [] := by intro area h; simp [lookupVal] at h
 
-theorem AV.snoc {t : Ty} {vals : List (String × Val)} (h : AV t vals) (k : String) (v : Val)
-    (hk : k = "authorizationArea" → AreaVal t v) : AV t (vals ++ [(k, v)]) := by
+theorem AuthOk.snoc {t : Ty} {vals : List (String × Val)} (h : AuthOk t vals) (k : String) (v : Val)
+    (hk : k = "authorizationArea" → AreaVal t v) : AuthOk t (vals ++ [(k, v)]) := by
   intro area ha
   simp only [lookupVal, List.find?_append] at ha
   cases hf : List.find? (fun x => x.1 == "authorizationArea") vals with
@@ -910,13 +911,13 @@ theorem AV.snoc {t : Ty} {vals : List (String × Val)} (h : AV t vals) (k : Stri
       rw [← ha]; exact hk (by simpa using hke)
     · simp [hke] at ha
 
-theorem AV.snoc_ne {t : Ty} {vals : List (String × Val)} (h : AV t vals) (k : String) (v : Val)
-    (hk : k ≠ "authorizationArea") : AV t (vals ++ [(k, v)]) := h.snoc k v (fun he => absurd he hk)
+theorem AuthOk.snoc_ne {t : Ty} {vals : List (String × Val)} (h : AuthOk t vals) (k : String) (v : Val)
+    (hk : k ≠ "authorizationArea") : AuthOk t (vals ++ [(k, v)]) := h.snoc k v (fun he => absurd he hk)
 
 /-- what a message walker may end with in warn mode: no internal error; on success at least one byte was consumed and
 the object's session area (if any) is as the session loop returned it -/
 def CM (name : String) (sessTy : Ty) (s0 : St) (r : R Val) : Prop :=
-  NC r ∧ ∀ v s', r = .ok (v, s') → s0.pos + 1 ≤ s'.pos ∧ ∃ vals, v = .obj name false vals ∧ AV sessTy vals
+  NC r ∧ ∀ v s', r = .ok (v, s') → s0.pos + 1 ≤ s'.pos ∧ ∃ vals, v = .obj name false vals ∧ AuthOk sessTy vals
 
 theorem CM.err {name : String} {sessTy : Ty} {s0 t : St} {e : Err} (h : ∀ c m, e ≠ .crash c m) : CM name sessTy s0 (.error (e, t)) :=
   ⟨NC.error_ne h, fun v s' hh => by cases hh⟩
@@ -927,7 +928,7 @@ theorem CM.of_nc {name : String} {sessTy : Ty} {s0 : St} {r : R Val} (h : NC r) 
 /-- `except SizeConstraintExceededError` of a message: every overrun that can reach it is one of its own two regions,
 and what it returns then is the object built from the values gathered so far -/
 theorem mc_cm {name : String} {sessTy : Ty} {id1 id2 : Nat} {vals : List (String × Val)} {s0 s : St} {r : R Val} {k : Val → St → R Val}
-    (hr : WC s r) (hown : ∀ d ∈ s.scs, d.id = id1 ∨ d.id = id2) (hp : s0.pos + 1 ≤ s.pos) (hv : AV sessTy vals)
+    (hr : WC s r) (hown : ∀ d ∈ s.scs, d.id = id1 ∨ d.id = id2) (hp : s0.pos + 1 ≤ s.pos) (hv : AuthOk sessTy vals)
     (hk : ∀ v t, r = .ok (v, t) → CM name sessTy s0 (k v t)) : CM name sessTy s0 (msgCatch false id1 id2 name vals r k) := by
   cases r with
   | ok vs => obtain ⟨v, t⟩ := vs; simp only [msgCatch]; exact hk v t rfl
@@ -1028,7 +1029,7 @@ theorem decodeCommand_cm (tb : MsgTables) (ht : tb.total = true) (path : Path) (
     have pos5 : s4.pos ≤ s5.pos := h5.1
     -- the tail: parameters, then the message's own region closes
     have tail : ∀ (vals : List (String × Val)) (enc : Bool) (s6 : St), Sole s0.pos (some n.toNat) s6.scs → s0.pos + 1 ≤ s6.pos →
-        AV tb.authCmd vals →
+        AuthOk tb.authCmd vals →
         CM "Command" tb.authCmd s0 (match lookupTy tb.cmdParams ((vInt ccv).getD 0) with
           | none => (.error (.value (path ++ [(⟨"commandCode", none⟩ : PathNode)]) tb.cc.name ((vInt ccv).getD 0), s6) : R Val)
           | some pty =>
@@ -1097,3 +1098,370 @@ theorem decodeCommand_cm (tb : MsgTables) (ht : tb.total = true) (path : Path) (
       rw [← h]; exact hav
     · rw [if_neg hsess]
       exact tail _ false s5 one5 (by omega) (by intro area h; simp [lookupVal] at h)
+
+/-! ### responses -/
+
+/-- what a response walker may end with in warn mode: no internal error but the encryption-flag assertion (the known
+finding); on success at least one byte was consumed -/
+def RM (s0 : St) (r : R Val) : Prop := NCX r ∧ ∀ v s', r = .ok (v, s') → s0.pos + 1 ≤ s'.pos
+
+theorem RM.err {s0 t : St} {e : Err} (h : ∀ c m, e ≠ .crash c m) : RM s0 (.error (e, t)) :=
+  ⟨(NC.error_ne h).ncx, fun v s' hh => by cases hh⟩
+
+/-- the three facts the message's `except` needs about the step it guards -/
+structure Guarded (s : St) (r : R Val) : Prop where
+  pos : s.pos ≤ (stOf r).pos
+  nc : NC r
+  exc : ∀ cid cp m a v b t, r = .error (.exceeded cid cp m a v b, t) → ∃ c ∈ s.scs, c.id = cid
+
+theorem WC.guarded {s : St} {r : R Val} (h : WC s r) : Guarded s r := by
+  refine ⟨h.1, h.2.1, ?_⟩
+  intro cid cp m a v b t hr
+  subst hr
+  obtain ⟨pre, c, post, hdec, hcid, _⟩ := h.2.2 cid cp m a v b rfl
+  exact ⟨c, by rw [hdec]; simp, hcid⟩
+
+theorem mc_rm {name : String} {id1 id2 : Nat} {vals : List (String × Val)} {s0 s : St} {r : R Val} {k : Val → St → R Val}
+    (hr : Guarded s r) (hown : ∀ d ∈ s.scs, d.id = id1 ∨ d.id = id2) (hp : s0.pos + 1 ≤ s.pos)
+    (hk : ∀ v t, r = .ok (v, t) → RM s0 (k v t)) : RM s0 (msgCatch false id1 id2 name vals r k) := by
+  cases r with
+  | ok vs => obtain ⟨v, t⟩ := vs; simp only [msgCatch]; exact hk v t rfl
+  | error es =>
+    obtain ⟨e, t⟩ := es
+    obtain ⟨hpos, hn, hm⟩ := hr
+    simp only [stOf] at hpos
+    by_cases hex : ∃ cid cp m a v b, e = .exceeded cid cp m a v b
+    · obtain ⟨cid, cp, m, a, v, b, rfl⟩ := hex
+      obtain ⟨c, hmem, hcid⟩ := hm cid cp m a v b t rfl
+      have hc := hown c hmem
+      rw [hcid] at hc
+      have : (cid != id1 && cid != id2) = false := by rcases hc with rfl | rfl <;> simp
+      simp only [msgCatch, Bool.false_or, this, Bool.false_eq_true, if_false]
+      refine ⟨(NC.ok _ _).ncx, fun v' s' hh => ?_⟩
+      simp only [Except.ok.injEq, Prod.mk.injEq] at hh
+      obtain ⟨_, rfl⟩ := hh
+      simp only [emitW, emit]; omega
+    · have hoc : msgCatch false id1 id2 name vals (.error (e, t)) k = .error (e, t) := by
+        cases e <;> first | rfl | (exfalso; exact hex ⟨_, _, _, _, _, _, rfl⟩)
+      rw [hoc]
+      exact ⟨NC.ncx (fun c m t' hh => hn c m t' hh), fun v s' hh => by cases hh⟩
+
+theorem first_rm {name : String} {id1 id2 : Nat} {p : Prim} {path : Path} {s0 s : St} {k : Val → St → R Val}
+    (hone : Sole id1 none s.scs) (hk : ∀ v t, readPrim false p path s = .ok (v, t) → RM s0 (k v t)) :
+    RM s0 (msgCatch false id1 id2 name [] (readPrim false p path s) k) := by
+  cases hr : readPrim false p path s with
+  | ok vs => obtain ⟨v, t⟩ := vs; simp only [msgCatch]; exact hk v t hr
+  | error es =>
+    obtain ⟨e, t⟩ := es
+    have hn : NC (readPrim false p path s) := readPrim_ncw p path s
+    rw [hr] at hn
+    by_cases hex : ∃ cid cp m a v b, e = .exceeded cid cp m a v b
+    · exfalso
+      obtain ⟨cid, cp, m, a, v, b, rfl⟩ := hex
+      obtain ⟨c, hc, _, hov⟩ := readPrim_exc_over hr
+      obtain ⟨c0, hs, _, hmax⟩ := hone
+      rw [hs] at hc
+      simp only [List.mem_singleton] at hc
+      subst hc
+      simp [SC.over, hmax] at hov
+    · have hoc : msgCatch false id1 id2 name [] (.error (e, t)) k = .error (e, t) := by
+        cases e <;> first | rfl | (exfalso; exact hex ⟨_, _, _, _, _, _, rfl⟩)
+      rw [hoc]
+      exact ⟨NC.ncx (fun c m t' hh => hn c m t' hh), fun v s' hh => by cases hh⟩
+
+/-- the end of a response: its own region closes and nothing is left open -/
+theorem finish_rm {rid n : Nat} {s0 s : St} (h : Sole rid (some n) s.scs) (hp : s0.pos + 1 ≤ s.pos) (vals : List (String × Val)) :
+    RM s0 ((assertDone false rid s).bind fun _ s =>
+      if s.scs.isEmpty then (.ok (.obj "Response" false vals, s) : R Val)
+      else crash "AssertionError" "size_constraints.assert_done()" s) := by
+  obtain ⟨c, hs, hid, hmax⟩ := h
+  have had : assertDone false rid s = assertDoneSC false c { s with scs := [] } :=
+    assertDone_last (id := rid) (pre := []) (c := c) (s := s) (by simpa using hs) hid (by intro d hd; cases hd)
+  rw [had]
+  have hw := assertDoneSC_wc c { s with scs := [] } n hmax
+  cases hx : assertDoneSC false c { s with scs := [] } with
+  | error et =>
+    obtain ⟨e, t⟩ := et
+    rw [hx] at hw
+    simp only [R.bind_error]
+    exact ⟨NC.ncx (fun c' m t' hh => hw.2.1 c' m t' (by simp only [Except.error.injEq, Prod.mk.injEq] at hh ⊢; exact hh)), fun v s' hh => by cases hh⟩
+  | ok ut =>
+    obtain ⟨_, t⟩ := ut
+    rw [hx] at hw
+    simp only [R.bind_ok]
+    have hscs : t.scs = [] := by have := hw.2.2; simp only [] at this; rw [this]; rfl
+    have hpos := hw.1
+    simp only [stOf] at hpos
+    rw [hscs]
+    simp only [List.isEmpty_nil, if_true]
+    refine ⟨(NC.ok _ _).ncx, fun v s' hh => ?_⟩
+    simp only [Except.ok.injEq, Prod.mk.injEq] at hh
+    obtain ⟨_, rfl⟩ := hh
+    omega
+
+/-- a body inside a freshly opened region followed by that region's `assert_done`, without an `except` of its own
+(the parameter area of a response inside `parameterSize`: the message's `except` catches for it) -/
+theorem inRegion {s1 s2 : St} {id : Nat} {cpath : Path} {n : Nat} (hs2 : s2.scs = s1.scs ++ [⟨id, cpath, 0, some n⟩])
+    (hpos : s2.pos = s1.pos) (hfresh : ∀ d ∈ s1.scs, d.id ≠ id) {r : R Val} (hr : WC s2 r) :
+    Guarded s2 (r.bind fun bv s => (assertDone false id s).bind fun _ s => .ok (bv, s)) ∧
+    ∀ v t, (r.bind fun bv s => (assertDone false id s).bind fun _ s => .ok (bv, s)) = .ok (v, t) →
+      s1.pos ≤ t.pos ∧ t.scs = bump s1.scs (t.pos - s1.pos) := by
+  have how := owner_wc hs2 hpos hfresh hr (fun bv => bv)
+  by_cases hown : ∃ cp m a v b t, r = .error (.exceeded id cp m a v b, t)
+  · obtain ⟨cp, m, a, v, b, t, rfl⟩ := hown
+    simp only [R.bind_error]
+    refine ⟨⟨hr.1, hr.2.1, ?_⟩, fun v' t' hh => by cases hh⟩
+    intro cid cp' m' a' v' b' t' hh
+    simp only [Except.error.injEq, Prod.mk.injEq, Err.exceeded.injEq] at hh
+    obtain ⟨⟨rfl, _⟩, _⟩ := hh
+    exact ⟨⟨id, cpath, 0, some n⟩, by rw [hs2]; simp, rfl⟩
+  · have hpass : ownCatch false id r (fun bv s => (assertDone false id s).bind fun _ s => .ok (bv, s)) =
+        r.bind fun bv s => (assertDone false id s).bind fun _ s => .ok (bv, s) :=
+      ownCatch_pass (fun cp m a v b t hh => hown ⟨cp, m, a, v, b, t, hh⟩)
+    rw [hpass] at how
+    refine ⟨⟨by rw [hpos]; exact how.1, how.2.1, ?_⟩, ?_⟩
+    · intro cid cp m a v b t hh
+      have := how.2.2
+      rw [hh] at this
+      obtain ⟨pre, c, post, hdec, hcid, _⟩ := this cid cp m a v b rfl
+      exact ⟨c, by rw [hs2, hdec]; simp, hcid⟩
+    · intro v t hh
+      have h1 := how.1
+      have h2 := how.2.2
+      rw [hh] at h1 h2
+      exact ⟨h1, h2⟩
+
+set_option maxHeartbeats 1000000 in
+theorem decodeResponse_rm (tb : MsgTables) (ht : tb.total = true) (cc : Option Int) (enc : Bool) (path : Path) (s0 : St) :
+    RM s0 (decodeResponse false tb cc enc path s0) := by
+  simp only [MsgTables.total, Bool.and_eq_true, Bool.not_eq_true'] at ht
+  obtain ⟨⟨⟨⟨⟨⟨⟨⟨⟨⟨⟨⟨⟨⟨⟨hw, _⟩, _⟩, uRsz⟩, uPsz⟩, _⟩, _⟩, tAuth⟩, okAuth⟩, _⟩, _⟩, sEnc⟩, _⟩, _⟩, aRH⟩, aRP⟩ := ht
+  simp only [MsgTables.wf, Bool.and_eq_true, decide_eq_true_eq] at hw
+  obtain ⟨⟨⟨⟨⟨⟨⟨⟨⟨⟨⟨⟨⟨⟨⟨⟨⟨⟨_, _⟩, _⟩, _⟩, _⟩, _⟩, _⟩, _⟩, hTagPos⟩, _⟩, _⟩, _⟩, wAuth⟩, neAuth⟩, wEnc⟩, _⟩, _⟩, wRH⟩, wRP⟩ := hw
+  unfold decodeResponse
+  simp only []
+  have hone0 : Sole s0.pos none (emitM ⟨path, .named "Response" false, none, "", 0⟩ { s0 with scs := [⟨s0.pos, [], 0, none⟩] }).scs :=
+    ⟨_, rfl, rfl, rfl⟩
+  -- tag
+  refine first_rm hone0 fun tag s1 e1 => ?_
+  have w1 := readPrim_wc tb.tagRsp (path ++ [⟨"tag", none⟩]) (emitM ⟨path, .named "Response" false, none, "", 0⟩ { s0 with scs := [⟨s0.pos, [], 0, none⟩] })
+  rw [e1] at w1
+  have p1 : s1.pos = s0.pos + tb.tagRsp.size := by simpa [emitM, emit] using readPrim_warn_ok e1
+  have one1 := hone0.of_ok w1
+  -- responseSize
+  refine mc_rm (readPrim_wc tb.rspSize _ s1).guarded (one1.own _) (by omega) fun rsz s2 e2 => ?_
+  have w2 := readPrim_wc tb.rspSize (path ++ [⟨"responseSize", none⟩]) s1
+  rw [e2] at w2
+  have one2 := one1.of_ok w2
+  have pos2 : s1.pos ≤ s2.pos := w2.1
+  obtain ⟨n, hvi, hn0⟩ := vInt_of_readPrim uRsz e2
+  rw [hvi]
+  simp only []
+  rw [if_neg hn0]
+  obtain ⟨s3, e3, p3, one3⟩ := setListed_one one2 (path ++ [⟨"responseSize", none⟩]) n.toNat
+  rw [e3]
+  simp only [R.bind_ok]
+  -- responseCode
+  refine mc_rm (readPrim_wc tb.rc _ s3).guarded (one3.own _) (by omega) fun rcv s4 e4 => ?_
+  have w4 := readPrim_wc tb.rc (path ++ [⟨"responseCode", none⟩]) s3
+  rw [e4] at w4
+  have one4 := one3.of_ok w4
+  have pos4 : s3.pos ≤ s4.pos := w4.1
+  split
+  · exact finish_rm one4 (by omega) _
+  · cases hh : cc.bind (lookupTy tb.rspHandles) with
+    | none => simp only []; exact RM.err (by intro c m h; split at h <;> cases h)
+    | some hty =>
+      simp only []
+      have whty : hty.wf = true ∧ areaTotal tb.encParam hty = true := by
+        cases cc with
+        | none => simp at hh
+        | some c => exact ⟨lookupTy_wf wRH (by simpa using hh), lookupTy_all aRH (by simpa using hh)⟩
+      -- handles
+      have h5 := decodeArea_wc tb enc hty whty.1 wEnc whty.2 (path ++ [⟨"handles", none⟩]) s4 (one4.fresh (by omega))
+      refine mc_rm h5.guarded (one4.own _) (by omega) fun hv s5 e5 => ?_
+      rw [e5] at h5
+      have one5 := one4.of_ok h5
+      have pos5 : s4.pos ≤ s5.pos := h5.1
+      -- after the parameters: the sessions (governed by responseSize itself), or the end
+      have after : ∀ (vals : List (String × Val)) (s8 : St), Sole s0.pos (some n.toNat) s8.scs → s0.pos + 1 ≤ s8.pos →
+          RM s0 (if (!(vInt tag == some tb.sessionsTag)) = true then
+              (assertDone false s0.pos s8).bind fun _ s =>
+                if s.scs.isEmpty then (.ok (.obj "Response" false vals, s) : R Val)
+                else crash "AssertionError" "size_constraints.assert_done()" s
+            else
+              msgCatch false s0.pos (s0.pos + 1) "Response" vals
+                (decodeSized false tb.authRsp (path ++ [(⟨"authorizationArea", none⟩ : PathNode)]) s0.pos s8) fun area s =>
+                match areaFlag tb.authRsp "encrypt" area with
+                | .error cls => crash cls "is_parameter_encryption" s
+                | .ok expected =>
+                  if expected != enc then crash "AssertionError" "process_response: parameter_encryption mismatch" s else
+                  if s.scs.isEmpty then .ok (.obj "Response" false (vals ++ [("authorizationArea", area)]), s)
+                  else crash "AssertionError" "size_constraints.assert_done()" s) := by
+        intro vals s8 one8 q8
+        split
+        · exact finish_rm one8 q8 _
+        · obtain ⟨a, hs8, ha, hmax⟩ := one8
+          have h9 := decodeSized_wc tb.authRsp wAuth tAuth okAuth neAuth (path ++ [⟨"authorizationArea", none⟩]) s0.pos s8 [] a n.toNat
+            (by rw [hs8]; rfl) ha (by intro d hd; cases hd) hmax
+            (by rw [hs8]; intro d hd; simp only [List.mem_singleton] at hd; subst hd; rw [ha]; omega)
+          refine mc_rm (s := { s8 with scs := [] }) h9.guarded (by intro d hd; cases hd) (by simp only []; omega) fun area s9 e9 => ?_
+          have hav := decodeSized_val tb.authRsp _ _ s8 s9 area e9
+          rw [e9] at h9
+          have hscs : s9.scs = [] := by have := h9.2.2; simp only [] at this; rw [this]; rfl
+          have pos9 : s8.pos ≤ s9.pos := h9.1
+          obtain ⟨ex, hflag⟩ := areaFlag_okw (flag := "encrypt") sEnc hav
+          simp only [hflag]
+          split
+          · exact ⟨fun c m t hh => by
+              simp only [crash, Except.error.injEq, Prod.mk.injEq, Err.crash.injEq] at hh
+              exact ⟨hh.1.1.symm, hh.1.2.symm⟩, fun v s' hh => by cases hh⟩
+          · rw [hscs]
+            simp only [List.isEmpty_nil, if_true]
+            refine ⟨(NC.ok _ _).ncx, fun v s' hh => ?_⟩
+            simp only [Except.ok.injEq, Prod.mk.injEq] at hh
+            obtain ⟨_, rfl⟩ := hh
+            omega
+      by_cases hsess : (vInt tag == some tb.sessionsTag) = true
+      · -- sessions: parameterSize opens its region around the parameters
+        simp only [hsess, if_true]
+        refine mc_rm (readPrim_wc tb.paramSize _ s5).guarded (one5.own _) (by omega) fun psz s6 e6 => ?_
+        have w6 := readPrim_wc tb.paramSize (path ++ [⟨"parameterSize", none⟩]) s5
+        rw [e6] at w6
+        have one6 := one5.of_ok w6
+        have pos6 : s5.pos ≤ s6.pos := w6.1
+        obtain ⟨pn, hpi, hpn0⟩ := vInt_of_readPrim uPsz e6
+        rw [hpi]
+        simp only []
+        rw [if_neg hpn0]
+        obtain ⟨s7, e7, hs7, p7⟩ := openRegion_warn (s0.pos + 1) (path ++ [⟨"parameterSize", none⟩]) pn.toNat s6
+        rw [e7]
+        simp only [R.bind_ok]
+        cases hp : cc.bind (lookupTy tb.rspParams) with
+        | none => simp only []; exact RM.err (by intro c m h; split at h <;> cases h)
+        | some pty =>
+          simp only []
+          have wpty : pty.wf = true ∧ areaTotal tb.encParam pty = true := by
+            cases cc with
+            | none => simp at hp
+            | some c => exact ⟨lookupTy_wf wRP (by simpa using hp), lookupTy_all aRP (by simpa using hp)⟩
+          obtain ⟨a6, ha6s, ha6, ha6m⟩ := one6
+          have hpre : ∀ d ∈ s6.scs, d.id ≠ s0.pos + 1 := by
+            intro d hd; rw [ha6s] at hd; simp only [List.mem_singleton] at hd; subst hd; rw [ha6]; omega
+          have hfr7 : Fresh s7.scs s7.pos := by
+            rw [hs7, p7]
+            exact fresh_append (by rw [ha6s]; exact fresh_one _ _ (by omega)) (by simp only []; omega)
+          have own7 : ∀ d ∈ s7.scs, d.id = s0.pos ∨ d.id = s0.pos + 1 := by
+            intro d hd
+            rw [hs7, ha6s] at hd
+            simp only [List.mem_append, List.mem_singleton] at hd
+            rcases hd with rfl | rfl
+            · exact Or.inl ha6
+            · exact Or.inr rfl
+          have h8 := decodeArea_wc tb enc pty wpty.1 wEnc wpty.2 (path ++ [⟨"parameters", none⟩]) s7 hfr7
+          obtain ⟨g8, k8⟩ := inRegion hs7 p7 hpre h8
+          refine mc_rm g8 own7 (by omega) fun pv s8 e8 => ?_
+          obtain ⟨q8, c8⟩ := k8 pv s8 e8
+          have one8 : Sole s0.pos (some n.toNat) s8.scs := by rw [c8]; exact Sole.bump ⟨a6, ha6s, ha6, ha6m⟩ _
+          have := after ([("tag", tag)] ++ [("responseSize", rsz)] ++ [("responseCode", rcv)] ++ [("handles", hv)] ++ [("parameterSize", psz)] ++ [("parameters", pv)]) s8 one8 (by omega)
+          simp only [hsess] at this
+          exact this
+      · -- no sessions
+        simp only [hsess, Bool.false_eq_true, if_false]
+        cases hp : cc.bind (lookupTy tb.rspParams) with
+        | none => simp only []; exact RM.err (by intro c m h; split at h <;> cases h)
+        | some pty =>
+          simp only []
+          have wpty : pty.wf = true ∧ areaTotal tb.encParam pty = true := by
+            cases cc with
+            | none => simp at hp
+            | some c => exact ⟨lookupTy_wf wRP (by simpa using hp), lookupTy_all aRP (by simpa using hp)⟩
+          have h8 := decodeArea_wc tb enc pty wpty.1 wEnc wpty.2 (path ++ [⟨"parameters", none⟩]) s5 (one5.fresh (by omega))
+          have g8 : Guarded s5 ((decodeArea false tb enc pty (path ++ [⟨"parameters", none⟩]) s5).bind fun pv s => (.ok (pv, s) : R Val)) := by
+            have : ((decodeArea false tb enc pty (path ++ [⟨"parameters", none⟩]) s5).bind fun pv s => (.ok (pv, s) : R Val)) =
+                decodeArea false tb enc pty (path ++ [⟨"parameters", none⟩]) s5 := by
+              cases decodeArea false tb enc pty (path ++ [⟨"parameters", none⟩]) s5 with
+              | ok vs => rfl
+              | error es => rfl
+            rw [this]; exact h8.guarded
+          refine mc_rm g8 (one5.own _) (by omega) fun pv s8 e8 => ?_
+          obtain ⟨pv', s8a, hd, e8'⟩ := bind_ok_inv e8
+          simp only [Except.ok.injEq, Prod.mk.injEq] at e8'
+          obtain ⟨rfl, rfl⟩ := e8'
+          rw [hd] at h8
+          have := after ([("tag", tag)] ++ [("responseSize", rsz)] ++ [("responseCode", rcv)] ++ [("handles", hv)] ++ [("parameters", pv')]) s8a (one5.of_ok h8) (by have := h8.1; simp only [stOf] at this; omega)
+          simp only [hsess] at this
+          exact this
+
+/-! ### streams, and every top-level decode -/
+
+theorem cmdEncrypt_okw (tb : MsgTables) (hs : sessOk tb.authCmd "encrypt" = true) {vals : List (String × Val)} (hav : AuthOk tb.authCmd vals) :
+    ∃ enc, cmdEncrypt tb (.obj "Command" false vals) = .ok enc := by
+  unfold cmdEncrypt
+  simp only [objField]
+  cases hl : lookupVal vals "authorizationArea" with
+  | none => exact ⟨false, rfl⟩
+  | some area =>
+    rcases hav area hl with rfl | ⟨vs, rfl, hvs⟩
+    · exact ⟨false, rfl⟩
+    · obtain ⟨b, hb⟩ := anyFlag_okw hs vs hvs
+      exact ⟨b, by simpa [areaFlag] using hb⟩
+
+/-- **the stream loop in warn mode**: no internal error but the known assertion, and the loop's bound is never hit (every
+message it completes consumes at least one byte) -/
+theorem decodeStream_ncxw (tb : MsgTables) (ht : tb.total = true) (path : Path) :
+    ∀ (fuel : Nat) (s : St), s.inp.length < fuel → NCX (decodeStream false tb path fuel s) := by
+  have ht' := ht
+  simp only [MsgTables.total, Bool.and_eq_true, Bool.not_eq_true'] at ht'
+  obtain ⟨⟨⟨⟨⟨⟨⟨⟨⟨⟨⟨⟨⟨⟨⟨_, _⟩, _⟩, _⟩, _⟩, _⟩, _⟩, _⟩, _⟩, _⟩, sEncC⟩, _⟩, _⟩, _⟩, _⟩, _⟩ := ht'
+  intro fuel
+  induction fuel with
+  | zero => intro s hf; omega
+  | succ n ih =>
+    intro s hf
+    unfold decodeStream
+    by_cases he : s.inp.isEmpty = true
+    · rw [if_pos he]; exact (NC.ok _ _).ncx
+    · rw [if_neg he]
+      have hc := decodeCommand_cm tb ht path s
+      refine hc.1.ncx.bind fun cmd s1 h1 => ?_
+      obtain ⟨hp1, vals, rfl, hav⟩ := hc.2 cmd s1 h1
+      obtain ⟨enc, henc⟩ := cmdEncrypt_okw tb sEncC hav
+      simp only [henc]
+      by_cases he1 : s1.inp.isEmpty = true
+      · rw [if_pos he1]; exact (NC.ok _ _).ncx
+      · rw [if_neg he1]
+        have hr := decodeResponse_rm tb ht ((objField (.obj "Command" false vals) "commandCode").bind vInt) enc path s1
+        refine hr.1.bind fun rsp s2 h2 => ?_
+        have hp2 := hr.2 rsp s2 h2
+        have l1 : s1.inp.length < s.inp.length := by
+          have := decodeCommand_pi false tb path s
+          rw [h1] at this
+          exact this.shorter (by omega)
+        have l2 : s2.inp.length < s1.inp.length := by
+          have := decodeResponse_pi false tb ((objField (.obj "Command" false vals) "commandCode").bind vInt) enc path s1
+          rw [h2] at this
+          exact this.shorter (by omega)
+        exact ih s2 (by omega)
+
+/-- **warn mode, every top-level decode**: the walker never ends in an internal error, but for the assertion that compares
+the caller's response-encryption flag with the response's own session attributes (the known finding) -/
+theorem runWalker_ncxw (tb : MsgTables) (ht : tb.total = true) (top : Top)
+    (htop : ∀ t, top = .ty t → t.wf = true ∧ t.total = true ∧ t.okNoSel = true) (x : List Byte) :
+    NCX (runWalker false tb top x) := by
+  unfold runWalker
+  cases top with
+  | ty t =>
+    obtain ⟨hwf, htot, hok⟩ := htop t rfl
+    exact (decode_wa t hwf htot rootPath none (initSt x) (fun _ => hok) (by intro c hc; cases hc)).1.2.1.ncx
+  | command => exact (decodeCommand_cm tb ht rootPath (initSt x)).1.ncx
+  | response cc enc => exact (decodeResponse_rm tb ht cc enc rootPath (initSt x)).1
+  | stream => exact decodeStream_ncxw tb ht rootPath (x.length + 1) (initSt x) (by simp [initSt])
+
+/-- structures and commands: no internal error at all -/
+theorem runWalker_ncw_ty (tb : MsgTables) (t : Ty) (hwf : t.wf = true) (htot : t.total = true) (hok : t.okNoSel = true) (x : List Byte) :
+    NC (runWalker false tb (.ty t) x) :=
+  (decode_wa t hwf htot rootPath none (initSt x) (fun _ => hok) (by intro c hc; cases hc)).1.2.1
+
+theorem runWalker_ncw_command (tb : MsgTables) (ht : tb.total = true) (x : List Byte) : NC (runWalker false tb .command x) :=
+  (decodeCommand_cm tb ht rootPath (initSt x)).1
